@@ -7,6 +7,7 @@ package main
 import (
 	"go/ast"
 	"path/filepath"
+	"strings"
 )
 
 func init() { steps = append(steps, transPool) }
@@ -45,6 +46,29 @@ func transPool(repo string, f *Facts) {
 		f.bad("translate chpool.Client.Release: not found")
 	}
 
+	// Pool.Do / Pool.Ping: a handle is acquired, the call runs on it, and the HANDLE is released (chpool.Client.Release, with
+	// its closed / lifetime test) — not the puddle resource directly.  The statements are pinned as they stand.
+	for _, name := range []string{"Do", "Ping"} {
+		fd := p.funcDecl("Pool", name)
+		if fd == nil || fd.Body == nil {
+			f.bad("translate chpool.Pool.%s: not found", name)
+			continue
+		}
+		var body []string
+		for _, st := range fd.Body.List {
+			body = append(body, nodeText(st))
+		}
+		f.trans.WriteString("def pool" + name + "Body : List String := [" + strings.Join(mapStr(body, leanStr), ", ") + "]\n")
+	}
+	if fd := p.funcDecl("Pool", "Acquire"); fd != nil && fd.Body != nil {
+		var body []string
+		for _, st := range fd.Body.List {
+			body = append(body, nodeText(st))
+		}
+		f.trans.WriteString("def poolAcquireBody : List String := [" + strings.Join(mapStr(body, leanStr), ", ") + "]\n")
+	} else {
+		f.bad("translate chpool.Pool.Acquire: not found")
+	}
 	if fd := p.funcDecl("Pool", "checkIdleConnsHealth"); fd != nil && fd.Body != nil {
 		mk := func() *glFunc {
 			return &glFunc{name: "chpool.Pool.checkIdleConnsHealth", f: f, state: "s", recv: "p", fallOff: "s",
